@@ -149,6 +149,9 @@ func checkC16(c *Ctx) {
 			}
 		}
 	}, "R16.8", "Failover.Get:caller-ttl-cell", []string{"R06.2"}, "refresh-ctx")
+	// every context gets a TTL cell of its own: WithTTL without update allocates (a package-level default cell would be shared —
+	// and written through WithTTL(…, true) — by every context seeded with that TTL) (C06 R06.3)
+	c.borrowKinds("C06", func() { c.c06WithTTL() }, "R16.8", "WithTTL:cell-per-context", []string{"R06.3"}, "no-fresh-cell")
 	c.c16CapturedVars()
 	c.c16CopyLocks()
 	c.c16ImmutableInClosures()
@@ -682,6 +685,13 @@ func (c *Ctx) c16Accesses() {
 					nAcc[fc.class]++
 					write := ev.Kind == pw.EvFieldWrite
 					switch fc.class {
+					case clSelfSync:
+						// a self-synchronising object (sync.Map, mutex, channel) protects its own contents, not the field that holds
+						// it: assigning the field (swapping in a fresh map, re-making a channel) after construction is a plain write
+						// that races with every method call made through the field
+						if write && !isCtor && !inConstructor(ev) && !(ev.Recv != nil && (ev.Recv.Kind == pw.KAlloc || ev.Recv.Kind == pw.KZero) && !published[ev.Recv]) {
+							report("R16.1", key, "selfsync-field-replaced", ev, "SELFSYNC field "+key+" is assigned outside the constructor set: the object synchronises its own contents, not the field holding it", p)
+						}
 					case clImmutable:
 						if write && !isCtor && !inConstructor(ev) {
 							// writes to a local copy or a fresh literal are not writes to shared state
